@@ -505,7 +505,18 @@ func chViaService(base, edited string) (h1, h2 string, err error) {
 	if err = post(edited); err != nil {
 		return
 	}
-	h2, err = read()
+	if h2, err = read(); err != nil {
+		return
+	}
+	// a content the sidecar rejects (empty, not a configuration, not YAML) leaves it running - and reporting - the last
+	// accepted one: the shard is in sync exactly when it RUNS the coordinator's configuration
+	bad := []string{"", "scrape_configs: 5\n", "global: [\n"}[len(edited)%3]
+	if post(bad) != nil {
+		var h3 string
+		if h3, err = read(); err == nil && h3 != h2 {
+			err = fmt.Errorf("after a rejected content %q the service reports hash %s, it runs the content of hash %s", bad, h3, h2)
+		}
+	}
 	return
 }
 
